@@ -628,6 +628,48 @@ func runC20(r *Run) {
 					}
 					oneShard := func(key string) { op.key = key; op.shards = []int64{fc.shardOf(key).id} }
 					switch k := og.Intn(100); {
+					case k < 3: // a burst of large puts to one shard: the batch is split by its size limit, not by count
+						first := fmt.Sprintf("big/%d/%d/0", ci, i)
+						target := fc.shardOf(first).id
+						nb := og.Range(3, 5)
+						op.kind = "big-put-burst"
+						op.key = first
+						op.shards = []int64{target}
+						op.check = func(any, error) string { return "" }
+						var chans []<-chan oxia.PutResult
+						var keys []string
+						for j, tries := 0, 0; len(keys) < nb && tries < 400; tries++ {
+							key := fmt.Sprintf("big/%d/%d/%d", ci, i, j)
+							j++
+							if fc.shardOf(key).id != target {
+								continue
+							}
+							val := append(valOf(key), og.Bytes(og.Range(36000, 70000))...)
+							keys = append(keys, key)
+							chans = append(chans, cl.Put(key, val))
+						}
+						r.Count("big_put_bursts", 1)
+						pending.Add(1)
+						ep.Go(func() {
+							defer pending.Done()
+							var firstErr error
+							for x, ch := range chans {
+								res := <-ch
+								if res.Err != nil {
+									if firstErr == nil {
+										firstErr = res.Err
+									}
+									continue
+								}
+								fc.mu.Lock()
+								rec := fc.shardOf(keys[x]).recs[keys[x]]
+								fc.mu.Unlock()
+								if res.Key != keys[x] || rec == nil || rec.version != res.Version.VersionId {
+									report(op, "wrong-result", fmt.Sprintf("put %q acknowledged with key %q version %d; the server holds %v", keys[x], res.Key, res.Version.VersionId, rec))
+								}
+							}
+							finish(nil, firstErr)
+						})
 					case k < 22: // put of a fresh key
 						key := fmt.Sprintf("p/%d/%d", ci, i)
 						val := valOf(key)
